@@ -5,9 +5,11 @@ import (
 	"encoding/json"
 	"fmt"
 	"os"
+	"os/signal"
 	"path/filepath"
 	"sort"
 	"strings"
+	"syscall"
 	"time"
 
 	"github.com/brutella/hc/db"
@@ -33,7 +35,15 @@ type c18Op struct {
 type c18Case struct {
 	Layer string  `json:"layer"` // storage | db
 	Hist  []c18Op `json:"hist"`
+	Dir   string  `json:"dir,omitempty"`   // name of the storage directory when it is a special one
+	Fault string  `json:"fault,omitempty"` // write-fault case (c18Faults)
 }
+
+// c18DirName is the name of the storage directory of the exploration that is running ("" = an ordinary name). hc names
+// the directory after the accessory by default, so any character an accessory name may contain can occur in it.
+var c18DirName string
+
+var c18SpecialDirs = []string{"Lamp [Kitchen]", "a*b", "what?", "[a-", "back\\slash", "{x,y}", "per%cent", " lead and trail "}
 
 var c18Vals = [][]byte{[]byte(""), []byte("a"), []byte("abcdef"), bytes.Repeat([]byte("0123456789abcdef"), 256), []byte("abc")}
 
@@ -109,8 +119,22 @@ func c18Play(c *fw.Ctx, layer string, hist []c18Op, dir string) (state string, o
 	database := db.NewDatabaseWithStorage(st)
 	model := map[string][]byte{}
 	ents := map[string]db.Entity{}
-	cas := c18Case{Layer: layer, Hist: hist}
+	cas := c18Case{Layer: layer, Hist: hist, Dir: c18DirName}
+	if c18DirName != "" {
+		dir = filepath.Join(filepath.Dir(dir), c18DirName)
+		os.RemoveAll(dir)
+		st, err = util.NewFileStorage(dir)
+		if err != nil {
+			c.Infra(err.Error())
+			return "", false
+		}
+		database = db.NewDatabaseWithStorage(st)
+	}
 	fail := func(sig, desc string) (string, bool) {
+		if c18DirName != "" {
+			sig += "/in-special-directory"
+			desc += fmt.Sprintf(" (storage directory %q)", c18DirName)
+		}
 		c.Report(sig, desc, cas)
 		return "", false
 	}
@@ -344,6 +368,9 @@ func c18Run(c *fw.Ctx) {
 	if c.Thorough() {
 		depth = 6
 	}
+	if c.Shard == 2 || c.NShards < 3 {
+		c18Faults(c)
+	}
 	switch {
 	case c.Shard == 0:
 		c18Explore(c, "storage", c18StorageOps(), depth)
@@ -358,6 +385,16 @@ func c18Run(c *fw.Ctx) {
 		c18Keys = []string{"k1", "K1"}
 		c18Explore(c, "storage", c18StorageOps(), depth)
 		c18Keys = saved
+		// the same searches (one level shallower) in directories whose names contain characters that mean something to
+		// pattern matching, shells or format strings
+		for _, dn := range c18SpecialDirs {
+			c18DirName = dn
+			c18Keys = []string{"k1", "x.entity"}
+			c18Explore(c, "storage", c18StorageOps(), depth-1)
+			c18Explore(c, "db", c18DBOps(), 1)
+			c18Keys = saved
+		}
+		c18DirName = ""
 	default:
 		// shards 2..: the un-merged trees (storage depth 3, thorough 4 on a reduced alphabet; database depth 2)
 		parts := c.NShards - 2
@@ -393,11 +430,130 @@ func init() {
 		Replay: func(c *fw.Ctx, raw json.RawMessage) {
 			var cas c18Case
 			json.Unmarshal(raw, &cas)
+			if cas.Fault != "" {
+				c18Faults(c)
+				return
+			}
+			c18DirName = cas.Dir
 			c18Play(c, cas.Layer, cas.Hist, filepath.Join(c.Scratch, "replay-store"))
+			c18DirName = ""
 			c.Eval(1)
 			c.State(1)
 		},
 		Budget:      func(string) time.Duration { return 20 * time.Minute },
 		Assumptions: []string{"storage keys stay within the characters hc itself uses (raw keys lose ':' by design, noted not judged)", "state merging on exact directory content is sound because the storage object holds nothing but the path"},
 	})
+}
+
+// c18Faults: a write that the operating system cuts short (disk full, quota, file size limit — injected with
+// RLIMIT_FSIZE, SIGXFSZ ignored, so the write fails with EFBIG after `limit` bytes). A Set / SaveEntity that
+// reports success has stored the whole value; one that reports an error has left the previous value; never a
+// truncated one, and the listing still shows exactly the live keys.
+func c18Faults(c *fw.Ctx) {
+	signal.Ignore(syscall.SIGXFSZ)
+	defer signal.Reset(syscall.SIGXFSZ)
+	var orig syscall.Rlimit
+	if err := syscall.Getrlimit(syscall.RLIMIT_FSIZE, &orig); err != nil {
+		c.Note("write-fault cases skipped: getrlimit: " + err.Error())
+		return
+	}
+	withLimit := func(limit uint64, f func()) {
+		lim := orig
+		lim.Cur = limit
+		if err := syscall.Setrlimit(syscall.RLIMIT_FSIZE, &lim); err != nil {
+			return
+		}
+		defer syscall.Setrlimit(syscall.RLIMIT_FSIZE, &orig)
+		f()
+	}
+	dir := filepath.Join(c.Scratch, "store-faults")
+	olds := map[string][]byte{"absent": nil, "len3": []byte("abc"), "len5000": bytes.Repeat([]byte("0123456789"), 500)}
+	news := map[string][]byte{"len10": []byte("ABCDEFGHIJ"), "len5000": bytes.Repeat([]byte("abcdefghij"), 500), "len100k": bytes.Repeat([]byte("x"), 100000)}
+	for on, old := range olds {
+		for nn, nw := range news {
+			for _, limit := range []uint64{0, 1, 9, 4096, 65536} {
+				for _, layer := range []string{"storage", "db"} {
+					c.Eval(1)
+					os.RemoveAll(dir)
+					st, err := util.NewFileStorage(dir)
+					if err != nil {
+						c.Infra(err.Error())
+						return
+					}
+					database := db.NewDatabaseWithStorage(st)
+					cas := c18Case{Layer: layer, Fault: fmt.Sprintf("old=%s new=%s limit=%d", on, nn, limit)}
+					sig := fmt.Sprintf("%s/old=%s,new=%s", layer, on, nn)
+					st.Set("other", []byte("OTHER"))
+					key := "k1"
+					var serr error
+					if layer == "storage" {
+						if old != nil {
+							st.Set(key, old)
+						}
+						withLimit(limit, func() { serr = st.Set(key, nw) })
+					} else {
+						key = "6e616d65.entity"
+						if old != nil {
+							database.SaveEntity(db.NewEntity("name", old, nil))
+						}
+						withLimit(limit, func() { serr = database.SaveEntity(db.NewEntity("name", nw, nil)) })
+					}
+					st2, _ := util.NewFileStorage(dir)
+					got, gerr := st2.Get(key)
+					prev, _ := func() ([]byte, error) { // what the key held before the faulty write
+						os.RemoveAll(dir + ".ref")
+						r, _ := util.NewFileStorage(dir + ".ref")
+						defer os.RemoveAll(dir + ".ref")
+						if old == nil {
+							return nil, nil
+						}
+						if layer == "storage" {
+							r.Set(key, old)
+						} else {
+							db.NewDatabaseWithStorage(r).SaveEntity(db.NewEntity("name", old, nil))
+						}
+						return r.Get(key)
+					}()
+					want, _ := func() ([]byte, error) { // what a complete write stores
+						os.RemoveAll(dir + ".ref")
+						r, _ := util.NewFileStorage(dir + ".ref")
+						defer os.RemoveAll(dir + ".ref")
+						if layer == "storage" {
+							r.Set(key, nw)
+						} else {
+							db.NewDatabaseWithStorage(r).SaveEntity(db.NewEntity("name", nw, nil))
+						}
+						return r.Get(key)
+					}()
+					switch {
+					case serr == nil && (gerr != nil || !bytes.Equal(got, want)):
+						c.Report("write-fault/success-reported-but-value-incomplete/"+sig, fmt.Sprintf("%s: the write was cut after %d bytes, the operation reported success, and the key now reads %d bytes (a complete write stores %d)", cas.Fault, limit, len(got), len(want)), cas)
+					case serr != nil && old == nil && gerr == nil:
+						c.Report("write-fault/failed-write-created-key/"+sig, fmt.Sprintf("%s: the operation failed (%v) but the key now exists with %d bytes", cas.Fault, serr, len(got)), cas)
+					case serr != nil && old != nil && (gerr != nil || !bytes.Equal(got, prev)):
+						c.Report("write-fault/failed-write-changed-value/"+sig, fmt.Sprintf("%s: the operation failed (%v) and the previous value is no longer what the key reads (%d bytes)", cas.Fault, serr, len(got)), cas)
+					}
+					if o, err := st2.Get("other"); err != nil || string(o) != "OTHER" {
+						c.Report("write-fault/other-key-damaged/"+sig, cas.Fault+": another key changed", cas)
+					}
+					ks, _ := st2.KeysWithSuffix("")
+					visible := 0
+					for _, k := range ks {
+						if !strings.HasPrefix(k, ".") {
+							visible++
+						}
+					}
+					wantKeys := 1
+					if gerr == nil {
+						wantKeys = 2
+					}
+					if visible != wantKeys {
+						c.Report("write-fault/listing/"+sig, fmt.Sprintf("%s: %d keys are listed, %d are live", cas.Fault, visible, wantKeys), cas)
+					}
+					c.Class(fmt.Sprintf("write-fault:%s:err=%v", layer, serr != nil))
+				}
+			}
+		}
+	}
+	os.RemoveAll(dir)
 }
